@@ -1,4 +1,5 @@
 import Oracle.Common
+import Oracle.Conv
 import MageModel.Gen.Dispatch
 import MageModel.Gen.List
 import MageModel.Gen.Emit
@@ -136,12 +137,7 @@ def optBoolOf (j : Json) : Option Bool := match j with | .null => none | v => v.
 def runOp (j : Json) : R Json := do
   let p ← proj j
   let words ← strList (← fld j "words")
-  let convJ ← (← fld j "conv").getObj?
-  let convL := convJ.toList
-  let conv : Conv :=
-    { atoi := fun w => (convL.lookup w).bind fun c => optIntOf ((c.getObjVal? "atoi").toOption.getD .null)
-      parseBool := fun w => (convL.lookup w).bind fun c => optBoolOf ((c.getObjVal? "bool").toOption.getD .null)
-      parseDuration := fun w => (convL.lookup w).bind fun c => optIntOf ((c.getObjVal? "dur").toOption.getD .null) }
+  let conv : Conv := Oracle.Conv.modelConv
   let failCallee := (fldStr j "fail").toOption.getD ""
   let ignoreDefault := (fldBool j "ignoreDefault").toOption.getD false
   match primary (cfgOf p) (fun path => p.world.lookup path) p.main with
